@@ -814,6 +814,112 @@ def run_hamiltonian(ck, mname, mol, gen_cases):
                          {"kind": "hamiltonian", "mol": mname, "op": nm}, found_input=(nm != "S^2"))
 
 
+# ------------------------------------------------------------------------------------ update histories
+def zero_masks(rng, cls, nv, per, k, extra):
+    """zero patterns (sets of parameter indices held at exactly 0.0 over a whole history).  For layered ansaetze
+    (UpCCGSD, per = parameters per layer) the designated patterns thin ONE layer at a time - each layer in turn,
+    first single + last paired double of that layer - so that layers have different numbers of Pauli words."""
+    masks = [("none", frozenset())]
+    if nv <= 1:
+        return masks
+    if cls == "UpCCGSD":
+        for j in range(k):
+            m = {j * per, (j + 1) * per - 1} if per > 1 else {j * per}
+            masks.append(("thin-layer-%d" % j, frozenset(m)))
+    else:
+        masks.append(("first+last", frozenset({0, nv - 1})))
+    for _ in range(extra):
+        cnt = rng.randint(1, max(1, nv // 2))
+        masks.append(("random-zeros", frozenset(rng.sample(range(nv), cnt))))
+    return masks
+
+
+def run_histories(ck, mols):
+    """The conservation clause on states reached the way an optimiser reaches them: build_circuit(p0), then
+    update_var_params(p1), update_var_params(p2), every default ansatz, UpCCGSD with k = 1..4, with parameters
+    held at exactly zero (fewer Pauli words in some layers / excitations)."""
+    ck.stream("ansatz-histories", "build_circuit(p0); update_var_params(p1); update_var_params(p2) on a fresh ansatz "
+              "object (UCCSD, UpCCGSD k=1..4, UCCGD, pUCCD; H2/H4/H4+; JW; both orderings), parameters uniform in "
+              "[-1.5,1.5] with a zero pattern kept over the history (none / one layer thinned at a time / first+last / "
+              "random); N and Sz mean and variance of the state after EVERY step; non-trivial = history contains an "
+              "update and a zero pattern")
+    quick = ck.tier == "quick"
+    rng = ck.rng
+    for mname in mols:
+        mol = molecule(mname)
+        n, nel, spin = mol.n_active_mos, mol.n_active_electrons, mol.spin
+        plan = []
+        for k in (1, 2, 3, 4):
+            plan.append(("UpCCGSD", k))
+        plan += [("UCCSD", None), ("UCCGD", None), ("pUCCD", None)]
+        for cls, k in plan:
+            if cls == "pUCCD" and spin != 0:
+                continue
+            orderings = (False,) if cls == "pUCCD" else (False, True)
+            try:
+                probe = make_ansatz(cls, mol, False, k=k or 2)
+            except Exception as e:
+                ck.violation("C12/%s/%s/constructor-raises" % (cls, sm(mname)), repr(e),
+                             {"kind": "history", "cls": cls, "mol": mname, "k": k}, found_input=True)
+                continue
+            nv = n_params(probe)
+            per = getattr(probe, "n_var_params_per_step", nv)
+            masks = zero_masks(rng, cls, nv, per, k or 1, 0 if quick else 3)
+            if quick:
+                # designated patterns always; both orderings for the small molecule and for the first layered case
+                # with a proper middle layer (k = 3), otherwise the orderings alternate over the patterns
+                todo = []
+                for i, mk in enumerate(masks):
+                    both = n <= 2 or (cls == "UpCCGSD" and k == 3 and mk[0].startswith("thin"))
+                    for ud in (orderings if both else (orderings[i % len(orderings)],)):
+                        todo.append((mk, ud))
+            else:
+                todo = [(mk, ud) for mk in masks for ud in orderings]
+            for (mlabel, mask), ud in todo:
+                steps = []
+                for _ in range(3):
+                    steps.append([0.0 if i in mask else rng.uniform(-1.5, 1.5) for i in range(nv)])
+                rep = {"kind": "history", "cls": cls, "mol": mname, "ud": ud, "k": k, "steps": steps}
+                run_one_history(ck, rep, mlabel)
+
+
+def run_one_history(ck, rep, mlabel=""):
+    cls, mname, ud, k, steps = rep["cls"], rep["mol"], rep["ud"], rep["k"], rep["steps"]
+    mol = molecule(mname)
+    n, nel, spin = mol.n_active_mos, mol.n_active_electrons, mol.spin
+    layout = "hcb" if cls == "pUCCD" else ("ud" if ud else "il")
+    label = cls + ("(k=%d)" % k if k else "")
+    sigbase = "C12/%s/%s/%s" % (cls, sm(mname), "up_then_down" if ud else "interleaved")
+    stats = []
+    try:
+        a = make_ansatz(cls, mol, ud, k=k or 2)
+    except Exception as e:
+        ck.violation("C12/%s/%s/constructor-raises" % (cls, sm(mname)), repr(e), rep, found_input=True)
+        return
+    for si, ps in enumerate(steps):
+        what = "build_circuit" if si == 0 else "update_var_params #%d" % si
+        try:
+            with quiet():
+                if si == 0:
+                    a.build_circuit(list(ps))
+                else:
+                    a.update_var_params(list(ps))
+        except Exception as e:
+            ck.violation(sigbase + "/%s-raises" % ("build" if si == 0 else "update"),
+                         "%s on %s (up_then_down=%s): %s with %d exact zeros among %d parameters raised %r" % (
+                             label, mname, ud, what, sum(1 for x in ps if x == 0.0), len(ps), e), rep, found_input=True)
+            break
+        st = check_state(ck, sigbase + ("/sector-leak" if si == 0 else "/sector-leak-after-update"),
+                         "%s on %s (up_then_down=%s) after %s (zero pattern %s)" % (label, mname, ud, what, mlabel),
+                         dict(rep, failing_step=si), a.circuit, layout, n, nel, spin / 2 if cls != "pUCCD" else 0.0)
+        stats.append(st)
+    nz = sum(1 for x in steps[0] if x == 0.0)
+    ck.case("ansatz-histories", json.dumps([cls, mname, ud, k, steps]), nontrivial=len(stats) >= 2 and nz > 0,
+            sample={"ansatz": label, "molecule": mname, "up_then_down": ud, "zero_pattern": mlabel,
+                    "exact_zeros": nz, "stats_per_step": stats},
+            tags=[label, mname, mlabel.split("-")[0] if mlabel else "replay", "ud" if ud else "il"])
+
+
 # ------------------------------------------------------------------------------------ main
 def run(ck):
     from translator import symmetry_tables
@@ -876,6 +982,7 @@ def run(ck):
         ck.notes["model_evaluation"] = "skipped (generated table unavailable)"
         oracle_only_operators(ck, 3)
     run_generators_and_states(ck, ["H2", "H4", "H4+"], 2 if quick else 10)
+    run_histories(ck, ["H2", "H4", "H4+"])
 
 
 def oracle_only_operators(ck, nmax):
@@ -941,6 +1048,10 @@ def replay(data):
         st = check_state(ck, "replay", "replay", r, a.circuit, layout, mol.n_active_mos, mol.n_active_electrons,
                          mol.spin / 2 if r["cls"] != "pUCCD" else 0.0)
         print(st)
+        return 1 if ck.violations else 0
+    if kind == "history":
+        run_one_history(ck, r, "replay")
+        print("history of %d steps replayed: %s" % (len(r["steps"]), "FAILS" if ck.violations else "N and Sz conserved after every step"))
         return 1 if ck.violations else 0
     if kind == "adapt" and "picks" in r:
         from tangelo.algorithms.variational import ADAPTSolver
